@@ -656,6 +656,8 @@ func (s *Sim) cprog(r *CallRec, st grpc.ClientStream, prog []Op, suffix string) 
 		case 'z':
 			e.Pt("c.sleep")
 			time.Sleep(op.D)
+		case 'y':
+			e.Pt("c.yield")
 		case 'w':
 			e.Pt("c.wait")
 			<-r.Ctx.Done()
